@@ -190,6 +190,53 @@ pub fn run(cx: &Cx) -> PropResult {
                 fail(acc, e, "i32", x as i32 as i64);
             }
         }
+        // streams: many values appended to ONE buffer (a growing BytesMut / Vec), read back in order
+        for round in 0..(random_per_shard / 64).min(4096) {
+            let n = 1 + (r.rng().next_u32() % 40) as usize;
+            let vals: Vec<u32> = (0..n).map(|_| {
+                let bits = r.rng().next_u32() % 33;
+                if bits == 0 { 0 } else { r.rng().next_u32() >> (32 - bits) }
+            }).collect();
+            let signed = round % 2 == 1;
+            let mut reference = Vec::new();
+            let mut v = Vec::new();
+            let mut bm = if round % 3 == 0 { BytesMut::new() } else { BytesMut::with_capacity(1 + (round as usize % 9)) };
+            let res = crate::run::guarded(|| {
+                for x in &vals {
+                    if signed {
+                        var_u32(zigzag(*x as i32), &mut reference);
+                        v.write_var_i32(*x as i32);
+                        bm.write_var_i32(*x as i32);
+                    } else {
+                        var_u32(*x, &mut reference);
+                        v.write_var_u32(*x);
+                        bm.write_var_u32(*x);
+                    }
+                }
+            });
+            acc.case("stream of values into one buffer", (round << 8) | 0xC11 << 44 | (shard as u64) << 32, vals.iter().any(|x| *x >= 128));
+            let mut bad = None;
+            if let Err(p) = res {
+                bad = Some(format!("writing {n} values into one buffer panicked: {p}"));
+            } else if v != reference || bm[..] != reference[..] {
+                bad = Some(format!("stream of {n} values: Vec {:02x?} BytesMut {:02x?} reference {:02x?}", v, &bm[..], reference));
+            } else {
+                let mut c = DeserializationContext::new(&v);
+                for x in &vals {
+                    let got = if signed { c.read_var_i32().ok().map(|y| y as u32) } else { c.read_var_u32().ok() };
+                    if got != Some(*x) {
+                        bad = Some(format!("stream read back {got:?} instead of {x}"));
+                        break;
+                    }
+                }
+            }
+            if let Some(b) = bad {
+                if acc.violations.is_empty() {
+                    acc.violation(b, json!({"kind": "stream", "values": vals, "signed": signed, "bytesmut_capacity": if round % 3 == 0 { 0 } else { 1 + (round as usize % 9) }}));
+                }
+                break;
+            }
+        }
         if shard == 0 {
             for x in [0u32, 127, 128, 16383, 16384, 2097151, 2097152, 268435455, 268435456, u32::MAX] {
                 let mut o = Vec::new();
@@ -206,7 +253,7 @@ pub fn run(cx: &Cx) -> PropResult {
     let mut r = PropResult::new(
         acc,
         "exploration",
-        "values x: +-4096 around every width boundary (2^7, 2^14, 2^21, 2^28, 2^31, 0, 2^32-1) for u32 and for the zig-zag pre-images for i32, the lattice k*65537, and seeded random values of uniformly chosen bit length; thorough tier in the release profile enumerates all 2^32 u32 and all 2^32 i32 values (values of an enumeration are distinct by construction and are counted, not hashed). Oracle: bytes written to Vec<u8> and BytesMut equal the independently computed LEB128 / zig-zag reference, SizeCalculator.size() == that length == minimal length, continuation bit on all but the last byte, SliceInput / OwnedInput / DeserializationContext read the value back and leave a sentinel byte unread. Non-trivial = needs >= 2 bytes.",
+        "values x: +-4096 around every width boundary (2^7, 2^14, 2^21, 2^28, 2^31, 0, 2^32-1) for u32 and for the zig-zag pre-images for i32, the lattice k*65537, and seeded random values of uniformly chosen bit length; thorough tier in the release profile enumerates all 2^32 u32 and all 2^32 i32 values (values of an enumeration are distinct by construction and are counted, not hashed). Oracle: bytes written to Vec<u8> and BytesMut equal the independently computed LEB128 / zig-zag reference, SizeCalculator.size() == that length == minimal length, continuation bit on all but the last byte, SliceInput / OwnedInput / DeserializationContext read the value back and leave a sentinel byte unread. Also streams of 1-40 values appended to one Vec<u8> and one BytesMut (fresh, or with 1-9 bytes of initial capacity so that it must grow mid-value) and read back in order. Non-trivial = needs >= 2 bytes.",
     );
     if exhaustive {
         r.exhaustive = Some(true);
@@ -215,6 +262,30 @@ pub fn run(cx: &Cx) -> PropResult {
 }
 
 pub fn replay(case: &serde_json::Value) -> crate::run::Verdict {
+    if case["kind"] == "stream" {
+        let vals: Vec<u32> = serde_json::from_value(case["values"].clone()).expect("values");
+        let signed = case["signed"].as_bool().unwrap_or(false);
+        let cap = case["bytesmut_capacity"].as_u64().unwrap_or(0) as usize;
+        let r = crate::run::guarded(|| {
+            let mut reference = Vec::new();
+            let mut bm = BytesMut::with_capacity(cap);
+            for x in &vals {
+                if signed {
+                    var_u32(zigzag(*x as i32), &mut reference);
+                    bm.write_var_i32(*x as i32);
+                } else {
+                    var_u32(*x, &mut reference);
+                    bm.write_var_u32(*x);
+                }
+            }
+            bm[..] == reference[..]
+        });
+        return match r {
+            Ok(true) => crate::run::Verdict::Pass,
+            Ok(false) => crate::run::Verdict::Fail("BytesMut stream differs from the reference".into()),
+            Err(p) => crate::run::Verdict::Fail(format!("panic: {p}")),
+        };
+    }
     let mut b = new_bufs();
     let v = case["value"].as_i64().expect("value");
     let r = if case["kind"] == "u32" { check_u32(v as u32, &mut b) } else { check_i32(v as i32, &mut b) };
